@@ -268,7 +268,7 @@ func summaryTrueDeep(fn *ssa.Function, depth int) []string {
 		if !ok || len(ret.Results) == 0 {
 			continue
 		}
-		collectReturnGuards(ret.Results[0], b, nil, &sets, depth, 4)
+		collectReturnGuards(RetResults(ret)[0], b, nil, &sets, depth, 4)
 	}
 	return intersect(sets)
 }
